@@ -168,6 +168,23 @@ def sanitizer_reports(text):
     return reps
 
 
+def report_belongs(prop, text, leg):
+    """Which memory-class property does a sanitizer / interpreter report belong to?
+    C01 owns everything in the crate's wait-queue code (and is the default); C02 only a race on the
+    data guarded by the mutex (the access sits in the harness's critical section); C08 only reports
+    about payload ownership (double free / use after free of a payload box); C19 / C20 run the data
+    structures in isolation, so every report of their legs is theirs."""
+    if prop == "C01":
+        return True
+    if prop == "C02":
+        return "wl_mutex" in text and ("data race" in text.lower() or "Data race" in text)
+    if prop == "C08":
+        return any(w in text for w in ("BVal", "payload.rs", "double-free", "attempting double-free"))
+    if prop in ("C19", "C20"):
+        return any(leg["name"].startswith(x) for x in ("ringbuf", "list", "heap"))
+    return True
+
+
 def first_repo_frame(text):
     m = re.search(r"(/repo/src/[\w/]+\.rs:\d+)", text)
     return m.group(1) if m else ""
@@ -349,7 +366,7 @@ def check_property(prop, tier, seed):
                 sig = f"sanitizer:{leg['name']}:{real_reps[0][0]}:{real_reps[0][1]}:{frame}"
                 rp = os.path.join(REPLAYS, f"{prop}-{r.name}-sanitizer.log")
                 open(rp, "w").write("CMD: " + " ".join(r.cmd) + "\n\n" + text[-60000:])
-                if memclass:
+                if memclass and report_belongs(prop, text, leg):
                     violations.append({"signature": sig, "replay": rp, "text": f"{real_reps[0][0]}: {real_reps[0][1]} {frame}"})
                 else:
                     notes.append(f"sanitizer report while checking {prop} (belongs to C01): {sig}")
